@@ -62,7 +62,7 @@ func (w *World) Infos() []*resource.Info {
 			cps = append(cps, corev1.ContainerPort{Name: cp.Name, ContainerPort: int32(cp.Num), Protocol: corev1.Protocol(cp.Proto)})
 		}
 		tmpl := corev1.PodTemplateSpec{ObjectMeta: metav1.ObjectMeta{Labels: wl.Labels},
-			Spec: corev1.PodSpec{Containers: Containers(cps)}}
+			Spec: corev1.PodSpec{Containers: Containers(cps), InitContainers: InitContainers()}}
 		r := int32(wl.Replicas)
 		switch wl.Kind {
 		case "Deployment":
@@ -446,7 +446,7 @@ func InfoPodIPs(ns, name, owner string, labels map[string]string, ports []CPort,
 		cps = append(cps, corev1.ContainerPort{Name: cp.Name, ContainerPort: int32(cp.Num), Protocol: corev1.Protocol(cp.Proto)})
 	}
 	p := &corev1.Pod{ObjectMeta: metav1.ObjectMeta{Name: name, Namespace: ns, Labels: labels},
-		Spec:   corev1.PodSpec{Containers: Containers(cps)},
+		Spec:   corev1.PodSpec{Containers: Containers(cps), InitContainers: InitContainers()},
 		Status: corev1.PodStatus{HostIP: hostIP, PodIPs: []corev1.PodIP{{IP: podIP}}}}
 	if owner != "" {
 		t := true
@@ -473,6 +473,14 @@ func InfoYAML(infos []*resource.Info) []string {
 // Containers spreads the container ports over two containers (even positions in the first, odd
 // positions in the second) behind a container without ports, so that code which looks only at the
 // first container, or stops at the first container that has ports, is visible.
+// InitContainers: every emitted pod (template) also carries a sidecar in the form of an init container with restartPolicy
+// Always that declares a port named "mesh". The tool reads the ports of spec.containers only; whatever it does with this
+// one, it must do for Pods and for pod templates alike.
+func InitContainers() []corev1.Container {
+	always := corev1.ContainerRestartPolicyAlways
+	return []corev1.Container{{Name: "mesh-sidecar", Image: "x", RestartPolicy: &always, Ports: []corev1.ContainerPort{{Name: "mesh", ContainerPort: 15090}}}}
+}
+
 func Containers(cps []corev1.ContainerPort) []corev1.Container {
 	cs := []corev1.Container{{Name: "sidecar-without-ports", Image: "x"}, {Name: "c0", Image: "x"}}
 	if len(cps) > 1 {
